@@ -25,7 +25,11 @@ def gen_inputs(ctx):
     n = 1000 if ctx.thorough else 240
     for i in range(n):
         t = MUTABLE_TOP[i % len(MUTABLE_TOP)]
-        yield gen_history(rng, t, rng.randrange(4, 22), p_invalid=0.4, p_child=0.2)
+        h = gen_history(rng, t, rng.randrange(4, 22), p_invalid=0.4, p_child=0.2)
+        if i % 5 == 4:
+            # a write through a child view made stale by a pop of its list: raises and leaves the list / enclosing views alone
+            h = add_stale_tail(rng, gen_history(rng, t, rng.randrange(2, 8), p_child=0.3)) or h
+        yield h
     # constructor-level violations (no history): the initial value itself is invalid
     for i in range(n // 4):
         t = MUTABLE_TOP[i % len(MUTABLE_TOP)]
